@@ -1,4 +1,157 @@
-import LtVerif.Model.Dav
-import LtVerif.Model.DavPut
+/-
+  C18 — WebDAV operations match a reference tree; PUT is all-or-nothing.
+  Property theorems only (helper lemmas live in LtVerif/Proofs/Dav*.lean).
+
+  Part 1 is about the tree model `Dav.step` (one request = one transition of the collection),
+  part 2 about the system-call protocol of PUT (`DavPut.stepEv`), where an event list is an
+  arbitrary schedule of write sizes, failures and client aborts and every prefix is a crash point.
+-/
+import LtVerif.Proofs.DavSeq
+import LtVerif.Proofs.DavDest
+import LtVerif.Proofs.DavPut
+import LtVerif.Proofs.DavExamples
 namespace LtVerif.C18
+open LtVerif LtVerif.B LtVerif.Dav
+
+/-! ## 1. the tree -/
+
+/-- A request that is not answered 2xx leaves the tree unchanged — for every tree, every method
+    and every header combination (the model returns the very same tree, not merely an equal one). -/
+theorem c18_error_unchanged (t : Tree) (r : Req) (h : ¬ Success (step t r).1) : (step t r).2 = t :=
+  step_error h
+
+example : (step Ex.t0 Ex.putBad).1 = 409 ∧ ¬ Success (step Ex.t0 Ex.putBad).1 := by decide
+
+/-- A request answered 2xx (other than 207 Multi-Status) has exactly the effect RFC 4918 prescribes:
+    for every well-formed tree and every request the reference covers (`Conforming`: the
+    destination of a COPY/MOVE is not an existing non-empty collection — lighttpd's documented
+    merge — and a file is not copied "into" a collection). -/
+theorem c18_success_effect (t : Tree) (r : Req) (hwf : WF t) (hc : Conforming t r)
+    (hs : Success (step t r).1) (h207 : (step t r).1 ≠ 207) :
+    ∀ q, get (step t r).2 q = rfcEffect (get t) r q :=
+  step_effect hwf hc hs h207
+
+example : Success (step Ex.t0 Ex.copyDtoF).1 ∧ (step Ex.t0 Ex.copyDtoF).1 ≠ 207 ∧
+    get (step Ex.t0 Ex.copyDtoF).2 (Ex.p ["f", "x"]) = some (.file (ofString "dx")) := by decide
+
+/-- Only the subtrees of the request target and of the destination change. -/
+theorem c18_frame (t : Tree) (r : Req) (q : Path) (hs : under r.src.segs q = false)
+    (hd : ∀ d, r.dst = .ok d → under d.segs q = false) : get (step t r).2 q = get t q :=
+  step_frame hs hd
+
+/-- Nothing outside the WebDAV root is touched by any sequence of requests addressed below the
+    root (and `mkDest` only produces destinations below the root). -/
+theorem c18_confined (root : Path) (t : Tree) (reqs : List Req) (hb : ∀ r ∈ reqs, Below root r)
+    (q : Path) (hq : under root q = false) : get (run t reqs) q = get t q :=
+  run_confined reqs t hb hq
+
+example : get (run Ex.t0 Ex.seq1) [Ex.sg "canary"] = some (.file (ofString "C")) ∧
+    under Ex.R [Ex.sg "canary"] = false := by decide
+
+/-- Every Destination value that mod_webdav_copymove_b accepts is a canonical absolute path: its
+    segments are non-empty, not "." or "..", and free of '/', and the physical destination is the
+    root followed by these segments. -/
+theorem c18_dest_contained (root : Path) (scheme authority raw : Bytes) (d : RPath)
+    (h : mkDest root scheme authority (some raw) = .ok d) :
+    under root d.segs = true ∧ ∃ p, parseDest scheme authority raw = .ok p ∧ CanonicalAbs p ∧
+      d.segs = root ++ (toRPath p).segs ∧ AllClean (toRPath p).segs := by
+  refine ⟨mkDest_below h, ?_⟩
+  unfold mkDest at h
+  simp only at h
+  split at h
+  · simp at h
+  · rename_i p hp
+    simp only [Dest.ok.injEq] at h
+    subst h
+    exact ⟨p, hp, parseDest_canonical hp, rfl, toRPath_clean (parseDest_canonical hp)⟩
+
+example : mkDest Ex.R (ofString "http") (ofString "dav.test") (some (ofString "http://dav.test/x/../../%2e%2e/b?q"))
+    = .ok ⟨Ex.p ["b"], false⟩ := by decide
+
+/-- Well-formedness (every entry's parent is a collection) is an invariant of the covered requests. -/
+theorem c18_wf_preserved (t : Tree) (r : Req) (hwf : WF t) (hc : Conforming t r) : WF (step t r).2 :=
+  step_wf hwf hc
+
+/-- After any sequence of covered requests the tree is the RFC 4918 reference tree of that
+    sequence: the RFC effects of exactly the requests that were answered with success, in order
+    (so success is reported exactly when the effect took place, and failures change nothing). -/
+theorem c18_matches_reference (t : Tree) (reqs : List Req) (hwf : WF t) (hc : ConformingRun t reqs) :
+    get (run t reqs) = refRun (get t) reqs ((statuses t reqs).map isSuccess) ∧ WF (run t reqs) :=
+  ⟨run_matches reqs t hwf hc, run_wf reqs t hwf hc⟩
+
+example : statuses Ex.t0 Ex.seq1 = [204, 409, 201, 200, 201, 204] := by decide
+
+/-- The documented exception is real: a collection copied onto an existing non-empty collection
+    is merged (here `/e/y` survives), which is not the RFC 4918 effect. -/
+theorem c18_merge_not_reference :
+    Success (step Ex.t0 Ex.copyDtoE).1 ∧
+    get (step Ex.t0 Ex.copyDtoE).2 (Ex.p ["e", "y"]) ≠ rfcEffect (get Ex.t0) Ex.copyDtoE (Ex.p ["e", "y"]) := by
+  decide
+
+/-- …and in a merge a member that cannot be placed (file onto a collection) is reported (207) and,
+    for MOVE, stays at the source (the repaired behaviour; see the C18 report). -/
+theorem c18_merge_member_failure :
+    (step Ex.t0 Ex.moveDtoE).1 = 207 ∧
+    get (step Ex.t0 Ex.moveDtoE).2 (Ex.p ["d", "x"]) = some (.file (ofString "dx")) := by
+  decide
+
+/-! ## 2. PUT as a system-call protocol -/
+
+open LtVerif.DavPut
+
+/-- At every state of every run — any schedule of write sizes, failed system calls and client
+    aborts — the target name holds its complete previous content or the complete new content. -/
+theorem c18_put_atomic (c : Cfg) (evs : List Ev) (s : PSt) (h : runEvs c (init c) evs = some s) :
+    s.read = c.old ∨ s.read = some c.new :=
+  (inv_run (inv_init c) (invS_init c) h).1.1
+
+/-- Every instant of an accepted run (a crash or SIGKILL after the k-th system call) is such a
+    state: acceptance is prefix closed. -/
+theorem c18_put_atomic_at_crash (c : Cfg) (evs : List Ev) (s : PSt) (h : runEvs c (init c) evs = some s)
+    (k : Nat) : ∃ s', runEvs c (init c) (evs.take k) = some s' ∧ (s'.read = c.old ∨ s'.read = some c.new) := by
+  obtain ⟨s', hs'⟩ := runEvs_take k h
+  exact ⟨s', hs', c18_put_atomic c _ s' hs'⟩
+
+example : (runEvs Ex.cRepl (init Ex.cRepl) Ex.runRepl).map (·.read) = some (some (ofString "hello")) := by decide
+example : (runEvs Ex.cRepl (init Ex.cRepl) (Ex.runRepl.take 5)).map (·.read) = some (some (ofString "old")) := by
+  decide
+
+/-- A completed or aborted (not crashed) upload leaves neither a staged name nor the anonymous
+    staging file behind. -/
+theorem c18_no_tmp_left (c : Cfg) (evs : List Ev) (s : PSt) (h : runEvs c (init c) evs = some s)
+    (hd : s.pc = .done) : s.tmp = none ∧ s.anon = none := by
+  have := (inv_run (inv_init c) (invS_init c) h).1.2
+  rw [hd] at this
+  exact this
+
+example : (runEvs Ex.cRepl (init Ex.cRepl) Ex.runEnospc).map (fun s => (s.pc, s.tmp, s.anon, s.read)) =
+    some (.done, none, none, some (ofString "old")) := by decide
+example : (runEvs Ex.cNew (init Ex.cNew) Ex.runAbort).map (fun s => (s.pc, s.tmp, s.anon, s.read)) =
+    some (.done, none, none, none) := by decide
+example : (runEvs Ex.cNew (init Ex.cNew) Ex.runByName).map (fun s => (s.pc, s.tmp, s.anon, s.read)) =
+    some (.done, none, none, some (ofString "hello")) := by decide
+
+/-- Success is decided exactly when the new content has been published: status class 2 means the
+    target holds the new content, anything else means it still holds the old content. -/
+theorem c18_put_status_exact (c : Cfg) (evs : List Ev) (s : PSt) (h : runEvs c (init c) evs = some s) :
+    (s.status = 2 → s.read = some c.new) ∧ (s.status ≠ 2 → s.read = c.old) := by
+  have := (inv_run (inv_init c) (invS_init c) h).2
+  exact ⟨fun h2 => (this.1 h2).1, this.2⟩
+
+/-- While the staged name of the O_TMPFILE protocol exists it holds the complete new content (a
+    crash leaves at most that name, never a partial file under it). -/
+theorem c18_put_staged_complete (c : Cfg) (evs : List Ev) (s : PSt) (h : runEvs c (init c) evs = some s)
+    (hp : s.pc = .linked ∨ s.pc = .needRename ∨ s.pc = .byNameC) : s.tmp = some c.new := by
+  have := (inv_run (inv_init c) (invS_init c) h).1.2
+  rcases hp with hp | hp | hp <;> rw [hp] at this <;> exact this
+
+/-- Content-Range PUT (copy, modify, rename): the run of the repaired code is accepted and atomic;
+    renaming after a failed write — what the pinned tree does — is not a word of the protocol. -/
+theorem c18_partial_put_protocol :
+    (runEvs Ex.cPart (init Ex.cPart) Ex.runPart).map (·.read) = some (some (ofString "0AB3")) ∧
+    (runEvs Ex.cPart (init Ex.cPart) Ex.runPartFail).map (fun s => (s.pc, s.tmp, s.read)) =
+      some (.done, none, some (ofString "0123")) ∧
+    runEvs Ex.cPart (init Ex.cPart) Ex.runPartBug = none := by
+  decide
+
 end LtVerif.C18
